@@ -298,6 +298,11 @@ func (session *BaseInSession) handleRtcpPacket(b []byte, rAddr *net.UDPAddr) err
 		Log.Errorf("[%s] handleRtcpPacket but length invalid. len=%d", session.UniqueKey(), len(b))
 		return nazaerrors.Wrap(base.ErrRtsp)
 	}
+	// rtcp固定头部4字节，sr固定部分28字节
+	if len(b) < 4 || (b[1] == rtprtcp.RtcpPacketTypeSr && len(b) < 28) {
+		Log.Errorf("[%s] handleRtcpPacket but length invalid. len=%d", session.UniqueKey(), len(b))
+		return nazaerrors.Wrap(base.ErrRtsp)
+	}
 
 	packetType := b[1]
 
